@@ -140,6 +140,8 @@ def load_job_payload(job: Dict[str, Any], work: Path):
                 gens.append(adv.Adversary(job["seed"] * 7 + k, label=f"Adversary{k}", p_instr=job.get("p_instr", 0.3), kinds=job.get("kinds")))
             elif part == "counter":
                 gens.append(adv.CountingGenerator())
+            elif part == "plan":
+                gens.append(adv.FixedPlan(job["seed"] * 7 + k))
             elif part == "charge":
                 gens.append(adv.ChargeDriver(job["seed"] * 7 + k))
             elif part == "queue":
@@ -349,8 +351,12 @@ def deep_walk(o: Any, mutable: List[str], path: str = "", depth: int = 0) -> Any
             return {"<" + type(o).__name__ + ">": [[f, deep_walk(getattr(o, f), mutable, f"{path}.{f}", depth + 1)] for f in o._fields]}
         return [deep_walk(x, mutable, f"{path}[{i}]", depth + 1) for i, x in enumerate(o)]
     if dataclasses.is_dataclass(o) and not isinstance(o, type):
+        names = {f.name for f in dataclasses.fields(o)}
+        # a frozen dataclass can still carry attributes smuggled into its __dict__ (vars(o)[...] = ...): part of the reading
+        extra = sorted((k, v) for k, v in getattr(o, "__dict__", {}).items() if k not in names)
         return {"<" + type(o).__name__ + ">": [[f.name, deep_walk(getattr(o, f.name), mutable, f"{path}.{f.name}", depth + 1)]
-                                              for f in dataclasses.fields(o)]}
+                                              for f in dataclasses.fields(o)]
+                + [["<extra>" + k, deep_walk(v, mutable, f"{path}.{k}", depth + 1)] for k, v in extra]}
     if isinstance(o, (list, set, dict, bytearray)):
         mutable.append(f"{path}:{type(o).__name__}")
         if isinstance(o, dict):
